@@ -285,12 +285,16 @@ def oracle(case):
             if "STOP" in w and not close(w["STOP"].value, idx[-1], widx[-1]):
                 out.fail("STOP-untruthful|" + why, "output STOP=%r but the last index value is %r\n%s" % (w["STOP"].value, idx[-1], ctx))
             if "STEP" in w:
-                if len(idx) > 1 and idx[0] != idx[-1]:
-                    if not close(w["STEP"].value, idx[1] - idx[0], widx[1] - widx[0], units=1.0):
+                blank_or_zero = w["STEP"].value in ("", 0) or close(w["STEP"].value, 0.0)
+                if len(idx) > 1:
+                    ok = close(w["STEP"].value, idx[1] - idx[0], widx[1] - widx[0], units=1.0)
+                    if not ok and idx[0] == idx[-1]:
+                        # an index that returns to its first value: lasio may also treat it like a single sample (no STEP)
+                        ok = blank_or_zero
+                    if not ok:
                         out.fail("STEP-untruthful|" + why, "output STEP=%r but the first increment is %r\n%s" % (w["STEP"].value, idx[1] - idx[0], ctx))
-                else:
-                    if w["STEP"].value not in ("", 0) and not close(w["STEP"].value, 0.0):
-                        out.fail("STEP-untruthful|single-sample", "single sample / constant index but STEP=%r" % (w["STEP"].value,))
+                elif not blank_or_zero:
+                    out.fail("STEP-untruthful|single-sample", "single sample but STEP=%r" % (w["STEP"].value,))
             cu = back.curves[0].unit if len(back.curves) else None
             for m in ("STRT", "STOP", "STEP"):
                 if m in w and cu is not None and w[m].unit != cu:
